@@ -6,7 +6,11 @@ From Coq Require Import Arith PeanoNat.
 Lemma one_inv (o : option (list Z)) r : one o = Some [r] -> o = Some r.
 Proof. destruct o; cbn; intros H; inversion H; reflexivity. Qed.
 
+Definition c08_flat_codes : list Z :=
+  [8101; 8102; 8103; 8104; 8105; 8106; 8107; 8108; 8109; 8110; 8201; 8202; 8203; 8204]%Z.
+
 Theorem c08_vec_frame code ps vs res' :
+  In code c08_flat_codes ->
   (0 < s_n (rshape ps))%nat ->
   run_c08_vec code ps vs = Some [res'] ->
   length res' = length (v vs 0) /\
@@ -14,9 +18,9 @@ Theorem c08_vec_frame code ps vs res' :
     in_col (s_n (rshape ps)) (s_cols (rshape ps)) (s_size (rshape ps)) (s_col (rshape ps)) idx = false ->
     nth idx res' d = nth idx (v vs 0) d.
 Proof.
-  intros Hn H. unfold run_c08_vec in H.
-  repeat match type of H with
-  | context [match ?c with _ => _ end] => destruct c; try discriminate
-  end;
-  apply one_inv in H; eapply col_op_frame; eauto.
+  intros Hin Hn H. unfold c08_flat_codes in Hin. cbn [In] in Hin.
+  repeat (destruct Hin as [Hc | Hin];
+          [subst code; cbv beta iota zeta delta [run_c08_vec] in H;
+           apply one_inv in H; eapply col_op_frame; eauto |]).
+  contradiction.
 Qed.
